@@ -10,6 +10,7 @@ import SarpyModel.Drivers.Geo
 import SarpyModel.Drivers.Remap
 import SarpyModel.Drivers.Opener
 import SarpyModel.Drivers.Crsd
+import SarpyModel.Drivers.Proj
 namespace Sarpy.Drivers
 
 def step (line : String) : String :=
@@ -27,6 +28,7 @@ def step (line : String) : String :=
   | "remap" :: rest => (remapStep rest).getD "bad-op"
   | "opener" :: rest => (openerStep rest).getD "bad-op"
   | "crsd" :: rest => (crsdStep rest).getD "bad-op"
+  | "proj" :: rest => (projStep rest).getD "bad-op"
   | _ => "bad-op"
 
 partial def loop (h : IO.FS.Stream) : IO Unit := do
